@@ -157,7 +157,8 @@ def check(ctx):
     ctx.sample({"convert(inch, centimeter, x)": repr(Interp(ctx.program).call(conv, [units["inch"], units["centimeter"], x], {}))})
     # ---- O3 sonar
     msn = fn.module(ctx, SONAR)
-    sonar = [v for v in msn.ns.values() if isinstance(v, ClassV) and v.module is msn and v.lookup("get")[1] is not None]
+    # (the public driver classes: private helpers / abstract bases are reached through them)
+    sonar = [v for v in msn.ns.values() if isinstance(v, ClassV) and v.module is msn and v.lookup("get")[1] is not None and not v.name.startswith("_")]
     ctx.floor("sonar drivers", len(sonar), 2)
     seen_kinds = set()
     for K in sonar:
@@ -186,7 +187,7 @@ def check(ctx):
     ctx.require(seen_kinds == {"pulse width", "voltage"}, "C18.O3", "both sonar read-out methods present", f"sonar drivers found for {sorted(seen_kinds)} only", site=(msn.filename, 1, "module"), key="C18.O3|kinds")
     # ---- O4 pressure
     mp = fn.module(ctx, PRESS)
-    P = [v for v in mp.ns.values() if isinstance(v, ClassV) and v.module is mp and v.lookup("pressure")[1] is not None]
+    P = [v for v in mp.ns.values() if isinstance(v, ClassV) and v.module is mp and v.lookup("pressure")[1] is not None and not v.name.startswith("_")]
     ctx.floor("pressure sensors", len(P), 1)
     for K in P:
         site = (mp.filename, K.node.lineno, K.name + ".pressure")
